@@ -63,4 +63,38 @@ theorem C18_different_boxes_different_resolution (b1 b2 : LTRB Rat)
 
 example : act (gradientToUser ⟨1, 0, 0, 1, 0, 0⟩ ⟨10, 20, 110, 70⟩) (1 / 2, 1 / 2) = (60, 45) := by decide +kernel
 
+/-! ### a rewritten definition stays usable: determinants -/
+
+/-- determinant of the linear part -/
+def det (t : Transform Rat) : Rat := t.sx * t.sy - t.kx * t.ky
+
+theorem det_mulT (a b : Transform Rat) : det (mulT a b) = det a * det b := by
+  unfold det mulT; simp only; ring
+
+/-- **a non-empty box keeps a definition invertible**: the determinant of the rewritten gradient / clip
+    transform is the definition's own determinant times the box's area; so for a box with non-zero width
+    and height (the only boxes the converter accepts: `to_non_zero_rect`) an invertible
+    `gradientTransform` / clip-path `transform` stays invertible, and a degenerate one stays degenerate -/
+theorem C18_rewriting_scales_det (t : Transform Rat) (b : LTRB Rat) :
+    det (gradientToUser t b) = det t * (b.width * b.height) ∧
+    det (clipToUser t b) = det t * (b.width * b.height) := by
+  have hf : det (fromBbox b) = b.width * b.height := by
+    unfold det fromBbox Transform.zero; simp [Flt.ofNat]
+  unfold gradientToUser clipToUser Transform.postConcat Transform.preConcat
+  rw [concat_eq, concat_eq, det_mulT, det_mulT, hf]
+  constructor <;> ring
+
+theorem C18_nonzero_box_keeps_invertible (t : Transform Rat) (b : LTRB Rat)
+    (hw : b.width ≠ 0) (hh : b.height ≠ 0) :
+    (det (gradientToUser t b) ≠ 0 ↔ det t ≠ 0) ∧ (det (clipToUser t b) ≠ 0 ↔ det t ≠ 0) := by
+  obtain ⟨h1, h2⟩ := C18_rewriting_scales_det t b
+  rw [h1, h2]
+  have : b.width * b.height ≠ 0 := mul_ne_zero hw hh
+  constructor <;> exact ⟨fun h hc => h (by rw [hc]; ring), fun h => mul_ne_zero h this⟩
+
+/-- and an empty box destroys it — which is why the converter refuses such boxes and falls back -/
+theorem C18_zero_box_degenerate (t : Transform Rat) (b : LTRB Rat) (hw : b.width = 0) :
+    det (gradientToUser t b) = 0 := by
+  rw [(C18_rewriting_scales_det t b).1, hw]; ring
+
 end Resvg.Props.C18
